@@ -189,6 +189,9 @@ func WrapFactors() []int {
 	return append(ks, 96, 128, 256)
 }
 
+// GiantLen is the size of the "giant" alteration of a byte string / big integer.
+const GiantLen = 512 << 10
+
 // Alterations applicable to a leaf kind.
 func Alterations(kind string) []string {
 	switch kind {
@@ -200,11 +203,11 @@ func Alterations(kind string) []string {
 		}
 		return a
 	case "bytes":
-		return []string{"zero", "ones", "flipfirst", "fliplast", "trunc", "extend", "empty", "donor", "random", "null", "absent"}
+		return []string{"zero", "ones", "flipfirst", "fliplast", "trunc", "extend", "empty", "donor", "random", "null", "absent", "giant"}
 	case "uint", "int":
 		return []string{"zero", "one", "inc", "max", "null", "absent"}
 	case "bigint":
-		return []string{"zero", "one", "inc", "negate", "huge", "donor", "random", "null", "absent"}
+		return []string{"zero", "one", "inc", "negate", "huge", "giant", "donor", "random", "null", "absent"}
 	case "bool":
 		return []string{"negate", "null"}
 	case "map":
@@ -287,6 +290,11 @@ func Mutate(data []byte, path, alt string, donor []byte, rnd *sim.Rng) ([]byte, 
 				b = []byte{}
 			case "random":
 				b = rnd.Bytes(len(b))
+			case "giant": // half a megabyte where a few dozen bytes are expected
+				b = make([]byte, GiantLen)
+				for i := range b {
+					b[i] = byte(0x51 + i%7)
+				}
 			case "lenmax":
 				if len(b) >= 4 {
 					binary.BigEndian.PutUint32(b[:4], 0xffffffff)
@@ -318,6 +326,8 @@ func Mutate(data []byte, path, alt string, donor []byte, rnd *sim.Rng) ([]byte, 
 				}
 			case "huge":
 				y.Lsh(y.Add(y, big.NewInt(1)), 8192)
+			case "giant":
+				y.Lsh(y.Add(y, big.NewInt(1)), 8*GiantLen)
 			case "random":
 				n := (x.BitLen() + 7) / 8
 				if n == 0 {
